@@ -125,4 +125,46 @@ CLAIMED["C17"] = {
     "note": _EO_NOTE,
 }
 
+_IX_NOTE = ("Trusted: the documented contracts of the row helpers (tt_intersect_rows / tt_ismember_rows / tt_setdiff_rows) for "
+            "duplicate-free lists, operands well-formed (rows(subs)==rows(vals)==nnz), numpy shape contracts in pv/rows.py and "
+            "pv/ix.py. Path-sensitive with branch-consistency pruning; loops unrolled once.")
+CLAIMED["C03"] = {
+    "technique": "static analysis: index-provenance / row-alignment typing of the sparse operators (path-sensitive), scalar-collapse "
+                 "typestate of dense lookups, finite operator tables (converse comparisons, count predicates of the logical "
+                 "aggregations, complement fills of division, zero-retention test), symbolic row counts at result constructors",
+    "level": "Decides that values of two sparse operands are combined only when aligned by construction and indices address the list "
+             "they were computed for (order independence of *, /, ==, !=, comparisons, logical ops), that single-entry dense lookups "
+             "are normalised before use, that the four rich comparisons pass the right converse / zero flag, that and/or/xor use count "
+             "== 2 / >= 1 / == 1, that entries are dropped only when zero and that division fills x/0, 0/x, 0/0 like dense division. "
+             "Result values and sparse/dense division at doubly-zero positions are not decided.",
+    "note": _IX_NOTE,
+}
+CLAIMED["C04"] = {
+    "technique": "static analysis: index-provenance / layout typing of the sparse write paths, enumeration-order discipline of linear "
+                 "<-> subscript conversions, dispatch exhaustiveness over the IndexVariant enum, growth-by-zeros pattern",
+    "level": "Decides necessary conditions of the read/write paths: change/delete/insert groups built from aligned masks and entries "
+             "addressed by their position in self.subs, F numbering at every linear-index conversion, every indexing variant handled "
+             "or rejected in both classes, dense growth padding with zeros. The history semantics itself (last writer wins over "
+             "arbitrary sequences, dense == sparse) is NOT decided: an unbounded relation between states.",
+    "note": _IX_NOTE,
+}
+CLAIMED["C06"] = {
+    "technique": "static analysis: index-provenance / row-alignment typing over all of sptensor.py and sptenmat.py (IX-dom, IX-seq, "
+                 "IX-pair, IX-kind), symbolic row-count algebra at every sparse constructor site, unique/aggregator pairing",
+    "level": "Decides that no two coordinate lists are ever paired by position unless aligned by construction (the static form of "
+             "order independence), that index arrays and masks are applied only to the lists they belong to, that constructors receive "
+             "aligned and equally long subscripts and values, and that the aggregating constructors reduce with the inverse index of "
+             "their own np.unique call. Absence of explicit zeros after arithmetic and range of user subscripts are not decided.",
+    "note": _IX_NOTE,
+}
+CLAIMED["C20"] = {
+    "technique": "static analysis: generator call patterns, unique-lineage and symbolic row counts of the random sparse generator, "
+                 "tiling pattern of the diagonal generators, aggregator pairing, RNG who-may-call over all modules",
+    "level": "Decides that ones/zeros/uniform generators produce the named fill for the requested shape and reach the F-reshaping "
+             "constructor, that random sparse subscripts stay pairwise distinct and values are drawn for exactly the kept count, "
+             "that diagonal generators tile one column per mode of a max(N, extent) shape, that aggregation pairs values with its own "
+             "unique index and drops zeros, and that all randomness comes from the global numpy stream. Entry values are not decided.",
+    "note": _IX_NOTE,
+}
+
 NOT_APPLICABLE = {}
